@@ -1393,24 +1393,33 @@ def shrink_candidates(case):
 
 MANIFEST = {
     "level_text": (
-        "Machine-checked proof (Coq 8.16) about the body of get_threshold REGENERATED from threshold.py on every run "
-        "(Python-ast translator into a small statement language with an interpreter): for every product function, "
-        "modifier, raw threshold, correction factor and range the global threshold lies in the range "
-        "(global_in_range) and every non-sentinel local threshold lies in the range and in the band "
-        "[g*0.7, g*1.5] (local_in_band, local_in_band_exact); the band literals of the source are the "
-        "specification's doubles (band_consts); every read of `image` in the twelve functions that receive "
-        "(image, mask) is mask-respecting (access_crop_first, regenerated) and crop-first methods cannot "
-        "distinguish images agreeing on the mask, through adaptive blocks and the per-object loop "
-        "(crop_first_noninterference*); the two-class Otsu cut over Q is invariant under permutation and NaN "
-        "insertion and is a mean of two data values (otsu_*). Tied to the code by exact comparison of "
-        "get_threshold's (local, global) with the extracted interpreter fed with the raw thresholds of the staged "
-        "callees (binary64 product modelled exactly), and by evaluating the verified checker, two-run "
-        "non-interference, determinism, bracket and Otsu invariances on the implementation."),
+        "Machine-checked proof (Coq 8.16, 31 theorems, all closed under the global context) about models REGENERATED from "
+        "threshold.py on every run: get_threshold is evaluated symbolically into the terms of its two results (robust to "
+        "behaviour-preserving refactorings) and proved equal to the specified closed form (get_threshold_closed_form); for every "
+        "product, modifier, raw threshold, correction factor and range the global threshold lies in the range (global_in_range) "
+        "and every non-sentinel local threshold in the range and the band [g*0.7, g*1.5], for the exact product, for binary64 "
+        "arithmetic (fmul_band_bracket, local_in_band_binary64) and for float32 arrays modulo the stored rounding; band "
+        "literals, access shapes of the 12 functions taking (image, mask), random-stream seeding, the Background / Kapur value "
+        "formulas and the RobustBackground defaults are regenerated facts (band_consts, access_crop_first, "
+        "random_streams_seeded, background_value_range, kapur_midpoint_range, body_methods_crop_first); crop-first methods "
+        "cannot distinguish images agreeing on the mask, through adaptive blocks and the per-object loop "
+        "(crop_first_noninterference*), and the per-object loop as written meets the per-pixel specification "
+        "(per_object_loop_meets_spec, crop_window_equiv); executable exact models tied to the code by correspondence: two-class "
+        "Otsu (permutation / NaN / affine invariance, bracket), Ridler-Calvard loop and maximum-correlation threshold (bracket for "
+        "ALL inputs: rc_model_bracket, mct_model_bracket), RobustBackground trimming (robust_mean_range), adaptive block geometry "
+        "in binary64 (finite sweep + refutation of 'blocks tile the image'). Tied to the code by exact comparison of "
+        "get_threshold's (local, global) with the extracted interpreter AND the closed form fed with the raw thresholds of the "
+        "staged callees, by extracted verified checkers on the raw per-object array (every pixel) and the adaptive block values / "
+        "partition / spline inputs and output, by dispatch / dtype / mask=None clauses, two-run non-interference, determinism, "
+        "same-process and fresh-process history replays, bracket and Otsu invariances on the implementation."),
     "level_note": (
-        "Trusted: Coq kernel + vm_compute; extraction (ExtrOcamlBasic only) and the S-expression driver; the Python "
-        "harness and the ast translator; NumPy/SciPy. Modelled, not verified: the numerical bodies of the seven "
-        "methods, the spline, log/exp (they enter as measured raw thresholds); floating-point Otsu is compared with "
-        "its Q model at 1e-9 on well-separated dyadic data."),
-    "technique": "Coq proof over a regenerated program + exact differential correspondence + verified checker on outputs",
+        "Trusted: Coq kernel + vm_compute; extraction (ExtrOcamlBasic only) and the S-expression driver; the Python harness and the "
+        "ast translators (symbolic evaluator, access / random-stream / size-threshold / formula passes); NumPy/SciPy "
+        "(RectBivariateSpline, linspace, find_objects contract). Modelled, not verified: the numerical bodies of MoG, Kapur and "
+        "Background beyond the regenerated formulas (relational clauses only); log/exp around the Ridler-Calvard loop and in Otsu's "
+        "wrapper; floating-point Otsu / MCT / RobustBackground / Ridler-Calvard are compared with their exact models at stated "
+        "tolerances on dyadic data, ill-conditioned arg-min/arg-max cases excluded and counted. otsu3/entropy/entropy3 values and "
+        "otsu with non-default min/max/bins have invariance clauses only."),
+    "technique": "Coq proof over regenerated programs/formulas + exact differential correspondence + verified checkers on outputs",
     "design_ref": "DESIGN.md section 7, C11",
 }
